@@ -950,15 +950,27 @@ func c16CanonicalPlace(c *Ctx) {
 		eqOnTrue := (cm.op == token.EQL) == truth
 		return eqOnTrue, !eqOnTrue
 	}
-	for _, key := range []string{"LocalStore.Verify", "LocalStore.Prune"} {
+	for _, key := range []string{"LocalStore.Verify", "LocalStore.Prune", "SFTPStore.Prune"} {
 		fn := c.mustFn(key)
 		if fn == nil {
 			continue
 		}
 		n := 0
 		for _, g := range withClosures(fn) {
-			if g == fn {
-				continue // the walk callback (and the workers) are closures
+			if g == fn && key != "SFTPStore.Prune" {
+				continue // the walk callback (and the workers) are closures; the SFTP walk is a loop
+			}
+			if key == "SFTPStore.Prune" {
+				instrsAll(g, func(_ *ssa.BasicBlock, _ int, ins ssa.Instruction) {
+					x, ok := ins.(*ssa.Call)
+					if !ok || !strings.HasSuffix(callee(x), "sftp.Client).Remove") {
+						return
+					}
+					n++
+					okG, _ := guarded(g, ins, acc)
+					c.verdict(okG, key+":canonical-place", ins.Pos(), "a file is removed only where the store keeps that chunk", "a file is removed for any listed name whose base name parses as a chunk id, wherever it lies: a stray file with a chunk-like name makes prune fail at Remove(nameFromID(id)) with the unreferenced chunks still in place")
+				})
+				continue
 			}
 			instrsAll(g, func(_ *ssa.BasicBlock, _ int, ins ssa.Instruction) {
 				sink := ""
